@@ -13,7 +13,7 @@ from . import c02 as C02
 ID = "C20"
 LEVEL = "fault_enumeration"
 BUDGET = {
-    "quick": {"runs": 320, "wall": 300, "chunk": 5},
+    "quick": {"runs": 640, "wall": 300, "chunk": 5},
     "thorough": {"runs": 6000, "wall": 3000, "chunk": 20},
 }
 RULE = (
